@@ -62,6 +62,9 @@ func (ctx *_OpContextType) checkArgImm(xlen int, as abi.As, arg *abi.AsArgument,
 	}
 
 	if ctx.HasShamt {
+		if ctx.Opcode == _OpBase_OP_IMM_32 {
+			xlen = 32 // SLLIW/SRLIW/SRAIW shift a 32-bit value: shamt has 5 bits
+		}
 		switch xlen {
 		case 32:
 			if err := immFitsRange(int64(arg.Imm), _ImmRanges_Shamt32); err != nil {
